@@ -25,7 +25,7 @@ EXPLANATION = ('Every arithmetic expression tree (@ + - unary +/- k* *k /k over 
                'parameter values, scalars and inputs, with the denotation computed by the harness from the leaf operands\' own mv '
                '(function composition, +, -, scalar multiplication). Construction-time shortcuts are therefore checked against plain '
                'matrix arithmetic. Rejection: every ordered pair of a mixed-structure catalogue x {@,+,-} and block constructors '
-               'must raise ValueError exactly when the declared structures do not match (concrete outcomes).')
+               'must raise an error exactly when the declared structures do not match (concrete outcomes).')
 FUNCTIONS = ['AbstractLinearOperator.__matmul__/__add__/__sub__/__mul__/__rmul__/__truediv__/__neg__/__pos__', 'CompositionOperator.__matmul__/__rmatmul__',
              'AdditionOperator.__add__/__radd__/__neg__', 'IdentityOperator.__matmul__', 'HomothetyOperator.__matmul__', 'AbstractLazyInverseOperator.__matmul__',
              'structure checks in all of them']
@@ -247,13 +247,11 @@ def _reject():
             try:
                 r = f(a, b)
                 outcome = 'ok'
-            except ValueError:
-                outcome = 'ValueError'
-            except Exception as ex:  # noqa: BLE001
+            except Exception as ex:  # noqa: BLE001  (the statement says "rejected with an error": any exception is a rejection)
                 outcome = type(ex).__name__
             if legal and outcome != 'ok':
                 bad.append(f'{na} {sym} {nb}: compatible but {outcome}')
-            elif not legal and outcome != 'ValueError':
+            elif not legal and outcome == 'ok':
                 bad.append(f'{na} {sym} {nb}: incompatible structures but ' + ('an operator is returned' if outcome == 'ok' else outcome))
             elif legal:
                 ins = b.in_structure()
@@ -278,14 +276,12 @@ def _scalars():
             try:
                 f()
                 bad.append(f'{name} accepted non-scalar {type(k).__name__}{np.shape(k)}')
-            except (ValueError, TypeError):
+            except Exception:  # noqa: BLE001  (any error is a rejection)
                 pass
-            except Exception as ex:  # noqa: BLE001
-                bad.append(f'{name} with {type(k).__name__}: {type(ex).__name__}')
     try:
         a(a)
         bad.append('A(A) accepted')
-    except ValueError:
+    except Exception:  # noqa: BLE001
         pass
     if bad:
         return violation('; '.join(bad), signature='c02-scalars:' + ';'.join(bad)[:200], kind='scalars')
